@@ -228,6 +228,8 @@ class Execution:
             elif k == "join":
                 if op[1].finished:
                     alts.append((t, "ok"))
+                elif len(op) > 2 and op[2] is not None and self.tbudget > 0:
+                    tout.append((t, "timeout"))
             elif k == "ev_wait":
                 if op[1]._flag:
                     alts.append((t, "ok"))
@@ -251,7 +253,7 @@ class Execution:
             # enabled join commute with every operation of every other thread and neither
             # disable nor are disabled by them, so exploring that one step alone is enough
             for a in alts:
-                if a[0].pending[0] in ("begin", "start", "join"):
+                if a[1] == "ok" and a[0].pending[0] in ("begin", "start", "join"):
                     return [a]
         return alts + tout + intr
 
@@ -613,7 +615,10 @@ def ctl_join(self, timeout=None):
     t = getattr(self, "_ctl_t", None)
     if t is None:
         raise RuntimeError("cannot join thread before it is started")
-    ex.point(("join", t))
+    dec = ex.point(("join", t, timeout))
+    if dec == "timeout":
+        ex.record(("join", t.tid, "TIMEOUT"))
+        return
     ex.hb_acquire(t.vc)
     ex.record(("join", t.tid))
 
@@ -695,6 +700,9 @@ def _hook_getattribute(self, name):
                 inst = False
             if inst and name != "_ctl_t":
                 ex.race.access(self, name, "rw" if isinstance(val, _MUTABLE) else "r", t, sys._getframe(1))
+            elif not inst and isinstance(val, _MUTABLE):
+                # a mutable container that lives on the class: shared by every instance (keyed by the container itself)
+                ex.race.access(val, "class-level " + name, "rw", t, sys._getframe(1))
     return val
 
 
@@ -793,6 +801,72 @@ class _ThreadingShim:
         return getattr(self._real, name)
 
 
+class _QueueModuleShim:
+    def __init__(self, real):
+        self._real = real
+        self.Queue = CtlQueue
+
+    def __getattr__(self, name):
+        return getattr(self._real, name)
+
+
+_STATE = []  # (owner, name, pristine deep copy) of mutable module-level / class-level attributes of auditok
+
+
+def snapshot_module_state():
+    """Executions must not depend on what earlier executions left behind in process-wide state (a class-level
+    list, a module-level dict, an lru_cache): remember the pristine value of every mutable module / class
+    attribute of auditok's modules and put it back before each execution."""
+    import copy
+    import types
+
+    import auditok
+
+    del _STATE[:]
+    mods = [m for n, m in sys.modules.items() if n.startswith("auditok") and isinstance(m, types.ModuleType)]
+    owners = list(mods)
+    for m in mods:
+        for v in list(vars(m).values()):
+            if isinstance(v, type) and getattr(v, "__module__", "").startswith("auditok"):
+                owners.append(v)
+    for o in owners:
+        for name, v in list(vars(o).items()):
+            if name.startswith("__"):
+                continue
+            if isinstance(v, (list, dict, set, bytearray, collections.deque)):
+                try:
+                    _STATE.append((o, name, copy.deepcopy(v)))
+                except Exception:
+                    pass
+    _installed["cached_functions"] = [v for m in mods for v in vars(m).values() if callable(getattr(v, "cache_clear", None))]
+    for o in owners:
+        if isinstance(o, type):
+            for v in vars(o).values():
+                f = getattr(v, "__func__", v)
+                if callable(getattr(f, "cache_clear", None)):
+                    _installed["cached_functions"].append(f)
+
+
+def restore_module_state():
+    import copy
+
+    for o, name, pristine in _STATE:
+        try:
+            cur = vars(o).get(name)
+            if cur != pristine:
+                if isinstance(o, type):
+                    setattr(o, name, copy.deepcopy(pristine))
+                else:
+                    setattr(o, name, copy.deepcopy(pristine))
+        except Exception:
+            pass
+    for f in _installed.get("cached_functions", ()):
+        try:
+            f.cache_clear()
+        except Exception:
+            pass
+
+
 _installed = {}
 
 
@@ -803,8 +877,8 @@ def install():
     from auditok import workers, cmdline
 
     _installed["workers"] = workers
-    _installed["orig"] = (workers.Queue, workers.Worker.__dict__.get("start"), workers.Worker.__dict__.get("join"))
-    workers.Queue = CtlQueue
+    if hasattr(workers, "Queue"):
+        workers.Queue = CtlQueue
     workers.Worker.start = ctl_start
     workers.Worker.join = ctl_join
     workers.Worker.is_alive = ctl_is_alive
@@ -816,11 +890,16 @@ def install():
     import threading as _th
     import time as _tm
 
+    import queue as _q
+
     for mod in (cmdline, workers):
         if hasattr(mod, "time") and getattr(mod, "time") is _tm:
             mod.time = _TimeShim(_tm)
         if hasattr(mod, "threading") and getattr(mod, "threading") is _th:
             mod.threading = _ThreadingShim(_th)
+        if hasattr(mod, "queue") and getattr(mod, "queue") is _q:
+            mod.queue = _QueueModuleShim(_q)
+    snapshot_module_state()
     return workers
 
 
@@ -870,6 +949,7 @@ def run_once(make, prefix, timeouts=0, interrupts=0, line_mode=False, stop_at_se
     """make() -> (main_fn, ctx).  Runs one execution; returns (execution, ctx)."""
     gc_was = gc.isenabled()
     gc.disable()
+    restore_module_state()
     try:
         ex = Execution(prefix, timeouts, interrupts, line_mode, stop_at_seen, policy=policy)
         if race:
